@@ -26,12 +26,14 @@ OPEN = True
 
 def parse_jobs(fn, entry, callees=(), loops=1, est=60, c08_wip=OPEN, c19_wip=OPEN, tier='quick', note08=None, note19=None, **kw):
     """one C08 job (fault-free allocation: -DCQV_ALLOC_NEVER_FAILS) and one C19 job (every arena request may fail) per parser"""
-    rep = R_STUBS + A_STUBS + list(callees)
+    arena_bodies = kw.pop('arena_bodies', False)   # arena as malloc bodies instead of is_fresh contracts (list fill loops)
+    rep = R_STUBS + ([] if arena_bodies else A_STUBS) + list(callees)
+    xd = ['CQV_PT_ARENA_BODIES=1'] if arena_bodies else []
     base = dict(entry=entry, enforce=fn, replace=rep, min_loop_obligations=loops, est_s=est, tier=tier, **P)
     base.update(kw)
     a = dict(name='c08_' + fn, prop='C08', harness='harness/C08/ptypes.c',
-             defines=['CQV_ALLOC_NEVER_FAILS=1', 'CQV_FN_%s=1' % fn], wip=c08_wip, **base)
-    b = dict(name='c19_' + fn, prop='C19', harness='harness/C19/ptypes.c', defines=['CQV_FN_%s=1' % fn], wip=c19_wip, **base)
+             defines=['CQV_ALLOC_NEVER_FAILS=1', 'CQV_FN_%s=1' % fn] + xd, wip=c08_wip, **base)
+    b = dict(name='c19_' + fn, prop='C19', harness='harness/C19/ptypes.c', defines=['CQV_FN_%s=1' % fn] + xd, wip=c19_wip, **base)
     if note08:
         a['note'] = note08
     if note19:
@@ -49,12 +51,12 @@ JOBS += parse_jobs('parse_statistics', 'h_parse_statistics', est=90, c08_wip=DON
 JOBS += parse_jobs('parse_logical_type', 'h_parse_logical_type', loops=7, est=420, tier='thorough', timeout=1200, c08_wip=DONE,
                    note19='no allocation in this function: identical to the C08 job, not run separately')
 JOBS += parse_jobs('parse_schema_element', 'h_parse_schema_element', callees=['parse_logical_type'], c08_wip=DONE, note19=N19)
-JOBS += parse_jobs('parse_column_metadata', 'h_parse_column_metadata', callees=['parse_statistics'], loops=7, est=600,
+JOBS += parse_jobs('parse_column_metadata', 'h_parse_column_metadata', callees=['parse_statistics'], loops=7, est=600, arena_bodies=True,
                    tier='thorough', timeout=1500, note08=ARR, note19=N19)
 JOBS += parse_jobs('parse_column_chunk', 'h_parse_column_chunk', callees=['parse_column_metadata'], c08_wip=DONE, note19=N19)
-JOBS += parse_jobs('parse_row_group', 'h_parse_row_group', callees=['parse_column_chunk'], loops=2, tier='thorough',
+JOBS += parse_jobs('parse_row_group', 'h_parse_row_group', callees=['parse_column_chunk'], loops=2, tier='thorough', arena_bodies=True,
                    note08=ARR, note19=N19)
-JOBS += parse_jobs('parquet_parse_file_metadata', 'h_parse_file_metadata', callees=['parse_schema_element', 'parse_row_group'],
+JOBS += parse_jobs('parquet_parse_file_metadata', 'h_parse_file_metadata', callees=['parse_schema_element', 'parse_row_group'], arena_bodies=True,
                    loops=5, est=600, tier='thorough', replayer=FZ_FM, note08=ARR + ' (not run to completion)', note19=N19)
 JOBS += parse_jobs('parquet_parse_page_header', 'h_parse_page_header', loops=4, est=160, replayer=FZ_PH, c08_wip=DONE,
                    note19='no allocation in this function: identical to the C08 job, not run separately')
@@ -100,8 +102,8 @@ JOBS += [
 TRUST_D = ['stubs/ptypes_stubs.c (-DCQV_PT_RLOG): thrift_read_* replaced by bodies that serve one arbitrary first field '
            '(wire type, id), report every nested struct as empty, and count reader calls; arena as in the C08 jobs']
 D = dict(overlays=['contracts/ptypes.ovl'], includes=['.'], harness='harness/C13/ptypes.c', loop_contracts=False,
-         extra_sources=['stubs/mem_stubs.c', 'stubs/ptypes_stubs.c'], trusted=TRUST_D, replace=A_STUBS,
-         defines=['CQV_PT_RLOG=1', 'CQV_ALLOC_NEVER_FAILS=1', 'CQV_MEMSET_EXACT=32'], unwind=4, object_bits=12,
+         extra_sources=['stubs/mem_stubs.c', 'stubs/ptypes_stubs.c'], trusted=TRUST_D,
+         defines=['CQV_PT_RLOG=1', 'CQV_PT_ARENA_BODIES=1', 'CQV_ALLOC_NEVER_FAILS=1'], unwind=4, object_bits=12,
          level='bounded', bound='first field of the struct arbitrary (every id, every wire type); nested structs empty; list length <= 2',
          est_s=60, wip=True)
 
@@ -113,7 +115,10 @@ def disp_job(fn, entry, props=('C13',), **kw):
 
 
 JOBS += [
-    disp_job('parse_logical_type', 'h_disp_logical_type', props=('C13', 'C17'), name='c13_parse_logical_type_ids'),
+    # memset(lt, 0, 12) must keep its zeroes (unknown tag => UNKNOWN): exact byte-wise memset, 16-iteration loop unwound
+    disp_job('parse_logical_type', 'h_disp_logical_type', props=('C13', 'C17'), name='c13_parse_logical_type_ids',
+             defines=['CQV_PT_RLOG=1', 'CQV_PT_ARENA_BODIES=1', 'CQV_ALLOC_NEVER_FAILS=1', 'CQV_MEMSET_EXACT=16'],
+             unwindset=['memset.0:17']),
     disp_job('parse_statistics', 'h_disp_statistics'),
     disp_job('parse_schema_element', 'h_disp_schema_element'),
     disp_job('parse_column_metadata', 'h_disp_column_metadata'),
